@@ -1,5 +1,5 @@
 //! Real-network part of the C08 harness: two real litep2p nodes (A = "p1", B = "p2") over
-//! loopback TCP, public API only.  Each node runs two user protocols; both nodes register
+//! loopback tcp / websocket / quic, public API only.  Each node runs two user protocols; both nodes register
 //! `/c08/0`, only A registers `/c08/1` and only B `/c08/2`, so substreams A opens on `/c08/1`
 //! fail their negotiation at the remote and must come back as open failures carrying the id
 //! (`TcpConnection::handle_negotiated_substream`).  Every protocol task records, in program
@@ -7,13 +7,22 @@
 //! node.  The driver only waits and issues commands; deadlines are several times the configured
 //! substream open timeout, and a run whose own 20 ms timer overshot badly (overloaded machine) or
 //! whose nodes did not get connected is discarded, never judged.
+//!
+//! Scenario kinds: `mix` (single and simultaneous dials, opens on supported and unsupported
+//! protocols from both sides, force_close racing with opens, reconnect) and `timeout`: every task
+//! litep2p spawned for node B (connection tasks, protocol loops) is held through B's executor, so
+//! B's transport still takes A's new stream (kernel socket / quinn endpoint driver keep running)
+//! but nobody answers multistream-select; A's outbound open must then end, within a few times the
+//! configured substream open timeout, in exactly one open failure carrying the id while the
+//! connection stays up.
 use futures::StreamExt;
 use litep2p::{
     codec::ProtocolCodec,
     config::ConfigBuilder,
     crypto::ed25519::Keypair,
     protocol::{Direction, TransportEvent, TransportService, UserProtocol},
-    transport::tcp::config::Config as TcpConfig,
+    executor::Executor,
+    transport::{quic::config::Config as QuicConfig, tcp::config::Config as TcpConfig, websocket::config::Config as WsConfig},
     types::protocol::ProtocolName,
     Litep2p, PeerId,
 };
@@ -22,12 +31,87 @@ use rand::{rngs::StdRng, Rng, SeedableRng};
 use serde_json::{json, Value};
 use std::{
     collections::HashMap,
-    sync::{Arc, Mutex},
+    future::Future,
+    pin::Pin,
+    sync::{
+        atomic::{AtomicBool, Ordering},
+        Arc, Mutex,
+    },
+    task::{Context, Poll, Waker},
     time::{Duration, Instant},
 };
 use tokio::sync::{mpsc, oneshot};
 
 const OPEN_TIMEOUT: Duration = Duration::from_secs(2);
+/// substream open timeout of the `timeout` scenarios, and how long the answer may take (7x)
+const SHORT_OPEN_TIMEOUT: Duration = Duration::from_millis(1000);
+const TIMEOUT_ANSWER_DEADLINE: Duration = Duration::from_millis(7000);
+
+/// Executor handed to `ConfigBuilder::with_executor`: plain `tokio::spawn`, except that every
+/// future of the node can be *held* (not polled) and released again, and aborted at the end.
+#[derive(Default)]
+struct GateExecutor {
+    held: AtomicBool,
+    wakers: Mutex<Vec<Waker>>,
+    tasks: Mutex<Vec<tokio::task::AbortHandle>>,
+}
+
+struct Gated {
+    inner: Pin<Box<dyn Future<Output = ()> + Send>>,
+    gate: Arc<GateExecutor>,
+}
+
+impl Future for Gated {
+    type Output = ();
+    fn poll(mut self: Pin<&mut Self>, cx: &mut Context<'_>) -> Poll<()> {
+        if self.gate.held.load(Ordering::SeqCst) {
+            let mut w = self.gate.wakers.lock().unwrap();
+            // re-check under the lock: `release` flips the flag before it takes the wakers
+            if self.gate.held.load(Ordering::SeqCst) {
+                w.push(cx.waker().clone());
+                return Poll::Pending;
+            }
+        }
+        self.inner.as_mut().poll(cx)
+    }
+}
+
+struct Gate(Arc<GateExecutor>);
+
+impl Gate {
+    fn spawn(&self, future: Pin<Box<dyn Future<Output = ()> + Send>>) {
+        let h = tokio::spawn(Gated { inner: future, gate: self.0.clone() });
+        let mut g = self.0.tasks.lock().unwrap();
+        g.retain(|h| !h.is_finished());
+        g.push(h.abort_handle());
+    }
+}
+
+impl Executor for Gate {
+    fn run(&self, future: Pin<Box<dyn Future<Output = ()> + Send>>) {
+        self.spawn(future)
+    }
+    fn run_with_name(&self, _: &'static str, future: Pin<Box<dyn Future<Output = ()> + Send>>) {
+        self.spawn(future)
+    }
+}
+
+impl GateExecutor {
+    fn hold(&self) {
+        self.held.store(true, Ordering::SeqCst);
+    }
+    fn release(&self) {
+        self.held.store(false, Ordering::SeqCst);
+        for w in self.wakers.lock().unwrap().drain(..) {
+            w.wake();
+        }
+    }
+    fn kill(&self) {
+        for h in self.tasks.lock().unwrap().drain(..) {
+            h.abort();
+        }
+    }
+}
 const ANSWER_DEADLINE: Duration = Duration::from_secs(12);
 const CONNECT_DEADLINE: Duration = Duration::from_secs(10);
 
@@ -36,12 +120,19 @@ pub static PANICS: Mutex<Vec<String>> = Mutex::new(Vec::new());
 #[derive(Clone, Default)]
 struct Log(Arc<Mutex<Vec<Value>>>);
 
+static T0: std::sync::OnceLock<Instant> = std::sync::OnceLock::new();
+
 impl Log {
-    fn push(&self, v: Value) {
+    fn push(&self, mut v: Value) {
+        // informational only (never compared): milliseconds since the harness started
+        v["t"] = json!(T0.get_or_init(Instant::now).elapsed().as_millis() as u64);
         self.0.lock().unwrap().push(v);
     }
     fn step(&self, s: Value, ret: Value) {
         self.push(json!({"e": "step", "s": s, "ret": ret, "panic": false, "view": 0}));
+    }
+    fn with<R>(&self, f: impl FnOnce(&[Value]) -> R) -> R {
+        f(&self.0.lock().unwrap())
     }
     fn count(&self, f: impl Fn(&Value) -> bool) -> usize {
         self.0.lock().unwrap().iter().filter(|v| f(v)).count()
@@ -147,19 +238,41 @@ struct Node {
     protos: Vec<mpsc::Sender<PCmd>>,
     app: mpsc::Sender<AppCmd>,
     task: tokio::task::JoinHandle<()>,
+    gate: Arc<GateExecutor>,
 }
 
 impl Node {
-    fn new(protocols: [&str; 2], names: Names) -> Option<Node> {
+    fn new(protocols: [&str; 2], names: Names, transport: &str, open_timeout: Duration) -> Option<Node> {
         let log = Log::default();
-        let mut builder = ConfigBuilder::new()
+        let gate = Arc::new(GateExecutor::default());
+        let builder = ConfigBuilder::new()
             .with_keypair(Keypair::generate())
             .with_keep_alive_timeout(Duration::from_secs(120))
-            .with_tcp(TcpConfig {
-                listen_addresses: vec!["/ip4/127.0.0.1/tcp/0".parse().unwrap()],
-                substream_open_timeout: OPEN_TIMEOUT,
+            .with_executor(Arc::new(Gate(gate.clone())));
+        let mut builder = match transport {
+            "ws" => builder.with_websocket(WsConfig {
+                listen_addresses: vec!["/ip4/127.0.0.1/tcp/0/ws".parse().unwrap()],
+                // dial from an ephemeral port: with the listen port reused, two simultaneous dials
+                // become ONE tcp connection in simultaneous-open mode on which both ends speak as
+                // dialers, and both dials fail
+                reuse_port: false,
+                substream_open_timeout: open_timeout,
                 ..Default::default()
-            });
+            }),
+            // quinn's idle timeout is taken from `connection_open_timeout` (no QUIC keep-alive pings):
+            // long enough that an idle link survives every wait of a scenario
+            "quic" => builder.with_quic(QuicConfig {
+                listen_addresses: vec!["/ip4/127.0.0.1/udp/0/quic-v1".parse().unwrap()],
+                connection_open_timeout: Duration::from_secs(25),
+                substream_open_timeout: open_timeout,
+            }),
+            _ => builder.with_tcp(TcpConfig {
+                listen_addresses: vec!["/ip4/127.0.0.1/tcp/0".parse().unwrap()],
+                reuse_port: false,
+                substream_open_timeout: open_timeout,
+                ..Default::default()
+            }),
+        };
         let mut protos = vec![];
         for (q, name) in protocols.iter().enumerate() {
             let (tx, rx) = mpsc::channel(64);
@@ -188,7 +301,7 @@ impl Node {
                 }
             }
         });
-        Some(Node { peer, addr, log, protos, app, task })
+        Some(Node { peer, addr, log, protos, app, task, gate })
     }
     async fn open(&self, q: usize, peer: PeerId) {
         let (tx, rx) = oneshot::channel();
@@ -227,29 +340,92 @@ struct Outcome {
     discarded: Option<&'static str>,
     opens: usize,
     overlapping: bool,
+    /// `timeout` scenarios: requests issued while B was held / of those, answered by an open
+    /// failure that names a timeout / the link ended meanwhile (nothing judged)
+    held_opens: usize,
+    timeout_failures: usize,
+    inconclusive: bool,
 }
 
-async fn scenario(rng: &mut StdRng) -> Outcome {
+impl Outcome {
+    fn discard(why: &'static str) -> Outcome {
+        Outcome { segments: vec![], discarded: Some(why), opens: 0, overlapping: false, held_opens: 0, timeout_failures: 0, inconclusive: false }
+    }
+}
+
+struct Canary {
+    worst: Arc<Mutex<f64>>,
+    task: tokio::task::JoinHandle<()>,
+}
+
+impl Canary {
+    fn start() -> Canary {
+        let worst = Arc::new(Mutex::new(0f64));
+        let w2 = worst.clone();
+        let task = tokio::spawn(async move {
+            loop {
+                let t = Instant::now();
+                tokio::time::sleep(Duration::from_millis(20)).await;
+                let over = t.elapsed().as_secs_f64() * 1000.0 - 20.0;
+                let mut g = w2.lock().unwrap();
+                if over > *g {
+                    *g = over;
+                }
+            }
+        });
+        Canary { worst, task }
+    }
+    fn worst_ms(&self) -> f64 {
+        *self.worst.lock().unwrap()
+    }
+}
+
+impl Drop for Canary {
+    fn drop(&mut self) {
+        self.task.abort();
+    }
+}
+
+fn pair(transport: &str, open_timeout: Duration) -> Option<(Node, Node)> {
     let names: Names = Default::default();
-    let (Some(a), Some(b)) = (Node::new(["/c08/0", "/c08/1"], names.clone()), Node::new(["/c08/0", "/c08/2"], names.clone())) else {
-        return Outcome { segments: vec![], discarded: Some("node setup"), opens: 0, overlapping: false };
-    };
+    let a = Node::new(["/c08/0", "/c08/1"], names.clone(), transport, open_timeout)?;
+    let b = Node::new(["/c08/0", "/c08/2"], names.clone(), transport, open_timeout)?;
     names.lock().unwrap().insert(a.peer, "p1".into());
     names.lock().unwrap().insert(b.peer, "p2".into());
-    // load probe
-    let worst = Arc::new(Mutex::new(0f64));
-    let w2 = worst.clone();
-    let probe = tokio::spawn(async move {
-        loop {
-            let t = Instant::now();
-            tokio::time::sleep(Duration::from_millis(20)).await;
-            let over = t.elapsed().as_secs_f64() * 1000.0 - 20.0;
-            let mut g = w2.lock().unwrap();
-            if over > *g {
-                *g = over;
-            }
+    Some((a, b))
+}
+
+async fn finish(a: Node, b: Node) -> Vec<Vec<Value>> {
+    a.task.abort();
+    b.task.abort();
+    a.gate.kill();
+    b.gate.kill();
+    tokio::time::sleep(Duration::from_millis(20)).await;
+    let segs = vec![a.log.0.lock().unwrap().clone(), b.log.0.lock().unwrap().clone()];
+    segs
+}
+
+/// Both protocols of both nodes saw a new established event (false: deadline passed, or every
+/// dial that was issued has been reported as failed).
+async fn connected(a: &Node, b: &Node, before: [usize; 2], dials: usize, fails_before: usize) -> bool {
+    let end = Instant::now() + CONNECT_DEADLINE;
+    loop {
+        let ok_a = a.log.with(|l| (0..2).all(|q| l.iter().filter(|v| is_ev(v, q, "est")).count() > before[0]));
+        let ok_b = b.log.with(|l| (0..2).all(|q| l.iter().filter(|v| is_ev(v, q, "est")).count() > before[1]));
+        if ok_a && ok_b {
+            return true;
         }
-    });
+        let fails = a.log.count(|v| is_ev(v, 0, "dialfailure")) + b.log.count(|v| is_ev(v, 0, "dialfailure"));
+        if (!ok_a && !ok_b && fails >= fails_before + dials) || Instant::now() >= end {
+            return false;
+        }
+        tokio::time::sleep(Duration::from_millis(5)).await;
+    }
+}
+
+async fn scenario(rng: &mut StdRng, transport: &str) -> Outcome {
+    let Some((a, b)) = pair(transport, OPEN_TIMEOUT) else { return Outcome::discard("node setup") };
+    let canary = Canary::start();
     let mut discarded = None;
     let mut opens = 0usize;
     let cycles = rng.gen_range(1..=2);
@@ -258,6 +434,7 @@ async fn scenario(rng: &mut StdRng) -> Outcome {
         let est_before = [a.log.count(|v| is_ev(v, 0, "est")), b.log.count(|v| is_ev(v, 0, "est"))];
         // connect: A dials, B dials, or both at once (two overlapping connections)
         let mode = rng.gen_range(0..4);
+        let fails_before = a.log.count(|v| is_ev(v, 0, "dialfailure")) + b.log.count(|v| is_ev(v, 0, "dialfailure"));
         if mode != 1 {
             let _ = a.app.send(AppCmd::Dial(b.addr.clone())).await;
         }
@@ -265,9 +442,7 @@ async fn scenario(rng: &mut StdRng) -> Outcome {
             let _ = b.app.send(AppCmd::Dial(a.addr.clone())).await;
         }
         overlapping |= mode >= 2;
-        let ok_a = a.log.wait(CONNECT_DEADLINE, |l| (0..2).all(|q| l.iter().filter(|v| is_ev(v, q, "est")).count() > est_before[0])).await;
-        let ok_b = b.log.wait(CONNECT_DEADLINE, |l| (0..2).all(|q| l.iter().filter(|v| is_ev(v, q, "est")).count() > est_before[1])).await;
-        if !(ok_a && ok_b) {
+        if !connected(&a, &b, est_before, if mode >= 2 { 2 } else { 1 }, fails_before).await {
             discarded = Some("not connected");
             break 'run;
         }
@@ -286,7 +461,7 @@ async fn scenario(rng: &mut StdRng) -> Outcome {
         // nothing is terminated while we wait for the answers
         let done_a = a.log.wait(ANSWER_DEADLINE, |l| unanswered(l, from_a) == 0).await;
         let done_b = b.log.wait(ANSWER_DEADLINE, |l| unanswered(l, from_b) == 0).await;
-        if *worst.lock().unwrap() > 1500.0 {
+        if canary.worst_ms() > 1500.0 {
             discarded = Some("overloaded");
             break 'run;
         }
@@ -323,41 +498,129 @@ async fn scenario(rng: &mut StdRng) -> Outcome {
             break;
         }
     }
-    probe.abort();
-    a.task.abort();
-    b.task.abort();
-    tokio::time::sleep(Duration::from_millis(20)).await;
-    let segs = vec![a.log.0.lock().unwrap().clone(), b.log.0.lock().unwrap().clone()];
-    Outcome { segments: segs, discarded, opens, overlapping }
+    drop(canary);
+    let segments = finish(a, b).await;
+    Outcome { segments, discarded, opens, overlapping, held_opens: 0, timeout_failures: 0, inconclusive: false }
 }
 
-pub fn run_net(n: usize, seed: u64, b0: usize) -> (Vec<String>, Value) {
+/// An outbound open whose negotiation is never answered: it must time out into one open failure.
+async fn timeout_scenario(rng: &mut StdRng, transport: &str) -> Outcome {
+    let Some((a, b)) = pair(transport, SHORT_OPEN_TIMEOUT) else { return Outcome::discard("node setup") };
+    let canary = Canary::start();
+    let _ = a.app.send(AppCmd::Dial(b.addr.clone())).await;
+    if !connected(&a, &b, [0, 0], 1, 0).await {
+        drop(canary);
+        let _ = finish(a, b).await;
+        return Outcome::discard("not connected");
+    }
+    let mut opens = 0usize;
+    // the link works: one request answered normally
+    let from0 = a.log.0.lock().unwrap().len();
+    a.open(0, b.peer).await;
+    opens += 1;
+    if !a.log.wait(ANSWER_DEADLINE, |l| unanswered(l, from0) == 0).await {
+        drop(canary);
+        let _ = finish(a, b).await;
+        return Outcome::discard("warm-up request not answered");
+    }
+    // nobody at B answers from now on; its transport keeps taking bytes / streams
+    b.gate.hold();
+    tokio::time::sleep(Duration::from_millis(30)).await;
+    let from = a.log.0.lock().unwrap().len();
+    let held_opens = rng.gen_range(1..=3);
+    for _ in 0..held_opens {
+        a.open(rng.gen_range(0..2), b.peer).await;
+        opens += 1;
+    }
+    let issued = Instant::now();
+    // the timeout fires at A while B is silent (3x the timeout), then B runs again
+    let _ = a.log.wait(SHORT_OPEN_TIMEOUT * 3, |l| unanswered(l, from) == 0).await;
+    b.gate.release();
+    let left = TIMEOUT_ANSWER_DEADLINE.saturating_sub(issued.elapsed());
+    let _ = a.log.wait(left, |l| unanswered(l, from) == 0).await;
+    // a second answer (for instance B's late reply) would show up now
+    tokio::time::sleep(Duration::from_millis(1200)).await;
+    let overloaded = canary.worst_ms() > 700.0;
+    drop(canary);
+    let closed = a.log.count(|v| v["s"]["a"] == "nev" && v["ret"]["k"] == "closed") > 0;
+    let accepted = a.log.0.lock().unwrap().iter().skip(from).filter(|v| v["s"]["a"] == "nopen" && v["ret"]["k"] == "ok").count();
+    let timeout_failures = a.log.0.lock().unwrap().iter().skip(from)
+        .filter(|v| v["s"]["a"] == "nev" && v["ret"]["k"] == "failed" && v["ret"]["err"].as_str().map(|e| e.contains("Timeout")).unwrap_or(false))
+        .count();
+    if !overloaded && !closed {
+        a.log.push(json!({"e": "nquiesce"}));
+        b.log.push(json!({"e": "nquiesce"}));
+    }
+    let segments = finish(a, b).await;
+    Outcome {
+        segments,
+        discarded: if overloaded { Some("overloaded") } else { None },
+        opens,
+        overlapping: false,
+        held_opens: accepted,
+        timeout_failures,
+        inconclusive: closed,
+    }
+}
+
+/// `plan`: comma separated `transport:kind:count` with kind `mix` | `timeout`.
+pub fn run_net(plan: &str, seed: u64, b0: usize) -> (Vec<String>, Value) {
     let rt = tokio::runtime::Builder::new_multi_thread().worker_threads(4).enable_all().build().expect("runtime");
     let mut rng = StdRng::seed_from_u64(seed ^ 0xC08);
     let mut lines = vec![];
-    let (mut runs, mut discarded, mut opens, mut overlapping, mut attempts) = (0usize, 0usize, 0usize, 0usize, 0usize);
-    while runs < n && attempts < 3 * n + 3 {
-        attempts += 1;
-        let before = PANICS.lock().unwrap().len();
-        let out = rt.block_on(scenario(&mut rng));
-        if out.discarded.is_some() {
-            discarded += 1;
-            continue;
-        }
-        let panics: Vec<String> = PANICS.lock().unwrap()[before..].to_vec();
-        for (i, seg) in out.segments.iter().enumerate() {
-            lines.push(json!({"e": "reset", "b": b0 + runs, "src": "net", "node": if i == 0 { "A" } else { "B" }, "ka": [true, true]}).to_string());
-            for v in seg {
-                lines.push(v.to_string());
+    let mut total = 0usize;
+    let mut summary = serde_json::Map::new();
+    for item in plan.split(',').filter(|x| !x.is_empty()) {
+        let f: Vec<&str> = item.split(':').collect();
+        let (transport, kind, n) = (f[0], f[1], f[2].parse::<usize>().expect("count"));
+        let (mut runs, mut discarded, mut opens, mut overlapping, mut attempts) = (0usize, 0usize, 0usize, 0usize, 0usize);
+        let (mut held, mut tfail, mut inconclusive) = (0usize, 0usize, 0usize);
+        let mut reasons: std::collections::BTreeMap<&'static str, usize> = Default::default();
+        while runs < n && attempts < 3 * n + 3 {
+            attempts += 1;
+            let before = PANICS.lock().unwrap().len();
+            let out = if kind == "timeout" { rt.block_on(timeout_scenario(&mut rng, transport)) } else { rt.block_on(scenario(&mut rng, transport)) };
+            if let Some(why) = out.discarded {
+                discarded += 1;
+                *reasons.entry(why).or_insert(0usize) += 1;
+                if std::env::var("VERIF_NET_DEBUG").is_ok() {
+                    for (i, seg) in out.segments.iter().enumerate() {
+                        eprintln!("-- discarded ({why}) node {i}");
+                        for v in seg {
+                            eprintln!("{v}");
+                        }
+                    }
+                }
+                continue;
             }
-            if i == 0 && !panics.is_empty() {
-                lines.push(json!({"e": "step", "s": {"a": "nev", "q": 0}, "ret": {"k": "panic", "msg": panics[0].chars().take(160).collect::<String>()},
-                                  "panic": true, "view": 0}).to_string());
+            if out.inconclusive {
+                // the link ended while B was held: nothing to judge, try again
+                inconclusive += 1;
+                if attempts < 3 * n + 3 {
+                    continue;
+                }
             }
+            let panics: Vec<String> = PANICS.lock().unwrap()[before..].to_vec();
+            for (i, seg) in out.segments.iter().enumerate() {
+                lines.push(json!({"e": "reset", "b": b0 + total, "src": "net", "transport": transport, "kind": kind,
+                                  "node": if i == 0 { "A" } else { "B" }, "ka": [true, true]}).to_string());
+                for v in seg {
+                    lines.push(v.to_string());
+                }
+                if i == 0 && !panics.is_empty() {
+                    lines.push(json!({"e": "step", "s": {"a": "nev", "q": 0}, "ret": {"k": "panic", "msg": panics[0].chars().take(160).collect::<String>()},
+                                      "panic": true, "view": 0}).to_string());
+                }
+            }
+            runs += 1;
+            total += 1;
+            opens += out.opens;
+            overlapping += out.overlapping as usize;
+            held += out.held_opens;
+            tfail += out.timeout_failures;
         }
-        runs += 1;
-        opens += out.opens;
-        overlapping += out.overlapping as usize;
+        summary.insert(format!("{transport}:{kind}"), json!({"wanted": n, "runs": runs, "discarded": discarded, "discard_reasons": reasons, "opens": opens,
+            "simultaneous_dials": overlapping, "held_opens": held, "timeout_failures": tfail, "link_ended_while_held": inconclusive}));
     }
-    (lines, json!({"net_runs": runs, "net_discarded": discarded, "net_opens": opens, "net_simultaneous_dials": overlapping}))
+    (lines, json!({"net_runs": total, "plan": Value::Object(summary)}))
 }
